@@ -33,6 +33,9 @@ type SrcSpec struct {
 	// TermFirst: with several producers only producer 0 issues the script's terminal notification; the
 	// others emit the values only (so the one terminal call can collide with somebody else's Next)
 	TermFirst bool `json:"term_first,omitempty"`
+	// PanicAfterSpawn: an asynchronous source whose subscribe function panics right after it has started its
+	// producer goroutines (the failure report of Subscribe then races with their emissions)
+	PanicAfterSpawn bool `json:"panic_after_spawn,omitempty"`
 	// Subject: kind of subject behind a hot source ("" = publish; see subjectKinds), SubjectBuf its buffer size
 	Subject    string `json:"subject,omitempty"`
 	SubjectBuf int    `json:"subject_buf,omitempty"`
@@ -501,6 +504,9 @@ type Src struct {
 	BeforeCall func(st Step)
 	// SubHook runs at the start of the n-th subscription (inside the subscribe function)
 	SubHook func(n int)
+	// ScriptPick, when set, chooses the script of a subscription from the context it was made with
+	// (nil result: the usual choice)
+	ScriptPick func(ctx context.Context, n int) []Step
 }
 
 // ProdCall is one producer-side call into the library.
@@ -667,6 +673,11 @@ func (s *Src) Obs() ro.Observable[int] {
 			s.env.Call("src.subscribe") // the subscribe function is user code too (C07)
 		}
 		script := s.scriptFor(n)
+		if s.ScriptPick != nil {
+			if alt := s.ScriptPick(ctx, n); alt != nil {
+				script = alt
+			}
+		}
 		prods := s.Spec.Producers
 		if prods < 1 {
 			prods = 1
@@ -706,6 +717,11 @@ func (s *Src) Obs() ro.Observable[int] {
 					s.play(dest, ctx, sub, p, script, timed, true)
 					s.Done++
 				})
+			}
+			if s.Spec.PanicAfterSpawn {
+				s.env.Yield()
+				s.env.K.Log(fmt.Sprintf("src%d subscribe function panics after starting its producers", s.ID))
+				panic(ScriptError(7))
 			}
 		default:
 			panic("unknown source mode " + s.Spec.Mode)
